@@ -21,8 +21,8 @@ Fixpoint g_F5_from (kid_conf : option string) (seen : list string) (s : signer) 
   match h with
   | [] => false
   | JExec _ _ :: r => g_F5_from kid_conf seen s r
-  | JReload kid :: r =>
-    let s' := reload kid_conf s kid in
+  | JReload kid th :: r =>
+    let s' := reload kid_conf s kid th in
     (negb (Nat.eqb (sg_gen s') (sg_gen s)) && str_in (sg_kid s') seen) || g_F5_from kid_conf (sg_kid s' :: seen) s' r
   end.
 
@@ -42,14 +42,36 @@ Fixpoint timeline (kc : option string) (s : signer) (h : list jstep) : list (sig
   match h with
   | [] => []
   | JExec c q :: r => (s, c, q) :: timeline kc s r
-  | JReload kid :: r => timeline kc (reload kc s kid) r
+  | JReload kid th :: r => timeline kc (reload kc s kid th) r
   end.
 
 (** C11-F4 for the finalizer: the writes of the key or of the signer's hash may be shifted *)
-Definition p_jf_F4 (H : string -> string) (x y : signer * jf_cfg * jreq) : bool :=
+Definition p_jf_F4 (fx5 : bool) (H : string -> string) (x y : signer * jf_cfg * jreq) : bool :=
   let '(s1, c1, q1) := x in
   let '(s2, c2, q2) := y in
-  guard_shift (jf_fields H s1 c1 q1) (jf_fields H s2 c2 q2) || guard_shift (signer_fields s1 c1) (signer_fields s2 c2).
+  guard_shift (jf_fields fx5 H s1 c1 q1) (jf_fields fx5 H s2 c2 q2) ||
+  guard_shift (signer_fields fx5 s1 c1) (signer_fields fx5 s2 c2).
 
-Definition g_jf_F4 (H : string -> string) (kc : option string) (s : signer) (h : list jstep) : bool :=
-  exists_pair (p_jf_F4 H) (timeline kc s h).
+Definition g_jf_F4 (fx5 : bool) (H : string -> string) (kc : option string) (s : signer) (h : list jstep) : bool :=
+  exists_pair (p_jf_F4 fx5 H) (timeline kc s h).
+
+(** C11-F8: the RFC 7234 cache ignores `Vary`: a stored response is reused for a
+    request whose Vary-selected headers differ from those of the request it was fetched for *)
+Definition g_F8 (fx8 : bool) (c : hc_cfg) (h : list alist) : bool :=
+  hc_stores fx8 c && exists_pair (fun a b => negb (String.eqb (hc_body c a) (hc_body c b))) h.
+
+(** C11-F4 for the jwt authenticator's key cache: endpoint hash | rendered url | key id *)
+Definition p_jk_F4 (H : string -> string) (a b : jk_cfg * jtok) : bool :=
+  jk_enabled (fst a) && jk_enabled (fst b) &&
+  (guard_shift (jk_fields H (fst a) (snd a)) (jk_fields H (fst b) (snd b)) ||
+   guard_shift (jk_ep_fields (fst a)) (jk_ep_fields (fst b))).
+
+Definition g_jk_F4 (H : string -> string) (h : list (jk_cfg * jtok)) : bool := exists_pair (p_jk_F4 H) h.
+
+Definition jk_cfg_eqb (a b : jk_cfg) : bool :=
+  String.eqb (jurl_text (jk_url a)) (jurl_text (jk_url b)) && alist_eqb (jk_headers a) (jk_headers b) &&
+  option_eqb Z.eqb (jk_ttl a) (jk_ttl b).
+
+Definition jtok_eqb (a b : jtok) : bool :=
+  String.eqb (t_iss a) (t_iss b) && String.eqb (t_kid a) (t_kid b) && String.eqb (t_signer a) (t_signer b) &&
+  String.eqb (t_sub a) (t_sub b).
